@@ -51,9 +51,19 @@ def is_const(t):
     return isinstance(t, tuple) and t and t[0] == "const"
 
 
+_INT_RANGES = {"u8": (0, 255), "u16": (0, 65535), "u32": (0, 2**32 - 1), "u64": (0, 2**64 - 1), "usize": (0, 2**64 - 1), "u128": (0, 2**128 - 1),
+               "i8": (-128, 127), "i16": (-32768, 32767), "i32": (-2**31, 2**31 - 1), "i64": (-2**63, 2**63 - 1), "isize": (-2**63, 2**63 - 1),
+               "i128": (-2**127, 2**127 - 1)}
+
+
 def const_int(t):
     if is_const(t) and t[1] in ("int", "bool", "char"):
         return t[2]
+    if t and t[0] == "cast" and t[1] == "IntToInt" and len(t) > 3:
+        v = const_int(t[2])              # `NAMED_CONST as u8`: the same number when it fits the target type
+        r = _INT_RANGES.get(t[3])
+        if v is not None and r is not None and r[0] <= v <= r[1]:
+            return v
     return None
 
 
